@@ -187,6 +187,145 @@ func TestVerifC08R(t *testing.T) {
 	}
 }
 
+// c08rRemovals returns, for every box below the top level of data (inside the usual containers), a copy of data with
+// that box cut out and the sizes of its ancestors corrected: structurally valid MP4 with one child missing.
+func c08rRemovals(data []byte) map[string][]byte {
+	out := map[string][]byte{}
+	containers := map[string]bool{"moov": true, "trak": true, "mdia": true, "minf": true, "stbl": true, "mvex": true, "dinf": true, "edts": true, "moof": true, "traf": true}
+	var walk func(start, end int, anc []int, path string)
+	walk = func(start, end int, anc []int, path string) {
+		for off := start; off+8 <= end; {
+			sz := int(binary.BigEndian.Uint32(data[off:]))
+			ty := string(data[off+4 : off+8])
+			if sz < 8 || off+sz > end {
+				return
+			}
+			if len(anc) > 0 {
+				v := append(append([]byte{}, data[:off]...), data[off+sz:]...)
+				for _, a := range anc {
+					binary.BigEndian.PutUint32(v[a:], binary.BigEndian.Uint32(data[a:])-uint32(sz))
+				}
+				name := path + "/" + ty
+				for k := 2; ; k++ { // second trak, second traf, ...
+					if _, dup := out[name]; !dup {
+						break
+					}
+					name = fmt.Sprintf("%s/%s#%d", path, ty, k)
+				}
+				out[name] = v
+			}
+			if containers[ty] {
+				walk(off+8, off+sz, append(append([]int{}, anc...), off), path+"/"+ty)
+			}
+			off += sz
+		}
+	}
+	walk(0, len(data), nil, "")
+	return out
+}
+
+// TestVerifC08R2: uploads that are well-formed MP4 with one child box missing (init and media), each followed by
+// well-formed uploads on the same channel.
+func TestVerifC08R2(t *testing.T) {
+	rep := vh.NewReport("C08")
+	defer rep.Write()
+	tracks, err := rLoadTracks()
+	if err != nil {
+		t.Fatalf("testdata: %v", err)
+	}
+	sh, _ := vh.Shard()
+	root, err := rScratch(fmt.Sprintf("c08r2-%d", sh))
+	if err != nil {
+		t.Fatalf("scratch: %v", err)
+	}
+	defer os.RemoveAll(root)
+	caseNr := 0
+	for _, tn := range []string{"video-500Kbps", "audio-nor-128Kbps", "text-nor-0"} {
+		tr := tracks[tn]
+		ext := map[string]string{"video-500Kbps": "cmfv", "audio-nor-128Kbps": "cmfa", "text-nor-0": "cmft"}[tn]
+		initPath, segPath := fmt.Sprintf("/upload/ch1/%s/init.%s", tn, ext), fmt.Sprintf("/upload/ch1/%s/%%d.%s", tn, ext)
+		type variant struct {
+			name     string
+			init, sg []byte
+		}
+		var vs []variant
+		ir, sr := c08rRemovals(tr.init), c08rRemovals(tr.segs[1])
+		var in, sn []string
+		for k := range ir {
+			in = append(in, k)
+		}
+		for k := range sr {
+			sn = append(sn, k)
+		}
+		sortStrings(in)
+		sortStrings(sn)
+		for _, k := range in {
+			vs = append(vs, variant{"init-without" + k, ir[k], tr.segs[1]})
+		}
+		for _, k := range sn {
+			vs = append(vs, variant{"media-without" + k, tr.init, sr[k]})
+		}
+		for _, v := range vs {
+			caseNr++
+			if !vh.Mine(caseNr) {
+				continue
+			}
+			v := v
+			label := tn + " " + v.name
+			storage := fmt.Sprintf("%s/case%d", root, caseNr)
+			_ = os.MkdirAll(storage, 0o755)
+			var codes []int
+			x := vrt.Run(nil, vrt.RunOpts{LoopHorizon: 2_000_000, WatchdogS: 60, AllowBlockedDaemons: true, StartNS: 1_700_000_000_000_000_000}, func(s *vrt.Sched) {
+				ctx, cancel := context.WithCancel(context.Background())
+				defer cancel()
+				rc, h, err := rNewReceiver(ctx, storage, nil, 30)
+				if err != nil {
+					s.Fail("setup", err.Error())
+					return
+				}
+				put := func(what, path string, body []byte) {
+					r := rPut(h, path, body, true, "", "")
+					codes = append(codes, r.Code)
+					if r.crashed() {
+						site, val := rPanicSite(rc, path, body)
+						if val != "{}" {
+							s.Fail("panic:"+site+":"+c08rClass(val), fmt.Sprintf("%s crashed the handler: %s", what, val))
+						}
+					}
+				}
+				put("the init segment", initPath, v.init)
+				put("the media segment", fmt.Sprintf(segPath, 1), v.sg)
+				put("a following media segment", fmt.Sprintf(segPath, 2), tr.segs[2])
+				put("a well-formed init segment afterwards", initPath, tr.init)
+				put("a well-formed media segment afterwards", fmt.Sprintf(segPath, 3), tr.segs[3])
+				s.Quiesce()
+			})
+			_ = os.RemoveAll(storage)
+			rep.AddStates(1)
+			rep.AddTrans(int64(len(codes)))
+			rep.AddExecs(1)
+			rep.Hit("C08.a")
+			rep.Hit("C08.b")
+			rep.Outcome(fmt.Sprint(codes))
+			in := map[string]any{"case": label}
+			for _, f := range x.Fails {
+				switch {
+				case f.Sig == "livelock" || f.Sig == "hang":
+					rep.Violate("C08.b", "receiver-hang:missing-child", label+": "+f.Msg, in)
+				case f.Sig == "deadlock":
+					rep.Violate("C08.b", "receiver-blocked:missing-child", label+": "+f.Msg, in)
+				case strings.HasPrefix(f.Sig, "panic"):
+					rep.Violate("C08.a", "receiver-"+f.Sig+":"+v.name, label+": "+f.Msg, in)
+				}
+			}
+			if x.Hung {
+				rep.Cap("hang-outside-rewritten-code")
+				return
+			}
+		}
+	}
+}
+
 func c08rClass(v string) string {
 	switch {
 	case strings.Contains(v, "index out of range"):
